@@ -23,7 +23,7 @@ vars == <<l, scn, files, H, ncmp>>
 K == [chunk |-> 65536, near |-> 44100, read |-> 2048, backup |-> "begin", handover |-> "refetch", clamp |-> TRUE]
 Note(rules, e, m) == IF rules = {} THEN TRUE
                      ELSE PrintT("DRIFT " \o ToJson([line |-> l, scn |-> Tr[scn].scn, ev |-> e.e, rules |-> rules,
-                                                      model |-> [ret |-> m.ret, tell |-> m.vf.off, rs |-> m.vf.rs, cur |-> m.vf.link - 1, off |-> m.vf.pos]]))
+                                                      model |-> [ret |-> m.ret, tell |-> m.vf.off, rs |-> m.vf.rs, cur |-> m.vf.link - 1, off |-> m.vf.pos, dr |-> m.vf.d.ret, dc |-> m.vf.d.cur, dw |-> m.vf.d.centerW]]))
 \* the logged page table in the model's terms
 TableOf(e) ==
   LET lk == e.lk IN
@@ -42,6 +42,7 @@ FileOf(e) == [PG |-> TableOf(e), BL |-> [i \in 1..Len(e.lk) |-> <<e.lk[i].bs0, e
 Known(h) == h \in DOMAIN H /\ H[h].known
 \* (when the reader ran into the end of the file the raw offset stops up to 26 bytes short of it, depending on the bytes: not compared)
 Same(m, e, F) == m.ret = e.ret /\ m.vf.off = e.tell /\ m.vf.rs = e.rs /\ (m.vf.rs >= STREAMSET => m.vf.link - 1 = e.cur) /\ (m.vf.pos = e.off \/ m.vf.pos = DataEnd(F.PG)) /\ m.vf.hs = e.hs
+                 /\ (m.vf.rs = INITSET /\ "dr" \in DOMAIN e => m.vf.d.ret = e.dr /\ m.vf.d.cur = e.dc /\ m.vf.d.centerW = e.dw)          \* the decoder's own bookkeeping
 Judge(m, e, F) == IF Same(m, e, F) THEN {} ELSE {"StateAsModelled"}
 Unknown == [known |-> FALSE]
 \* ov_read: the frames a buffer of len bytes holds in the link the decoder is in when the samples are there
